@@ -18,6 +18,14 @@ CLAIMED = {
   text="error_handler is proved to raise exactly the class of the specification's table for every byte string and never return; handle_state_step to return only when the reply has no Error item and a right-or-absent State, raising the mapped class otherwise; all three state machines, run with unconstrained replies, to complete normally only if no reply carried an Error or a wrong State, to raise the mapped class when one did, and to let State and Error through every expectations filter they yield.",
   note="Trusted: pyvc semantics, dict(<arbitrary TLV list>) modelled as an arbitrary finite map. IP/BLE add/remove-pairing reply checks not yet under contract.",
   ref="4/C04"),
+ "C05": dict(
+  text="SecureHomeKitProtocol.send_bytes is proved (loop invariant, every payload length) to hand the transport layer, in ONE call, exactly frames(key, counter, payload): chunks of <= 1024 bytes, each le16(len) | AEAD(key, 0000|le64(counter+i), aad=le16(len), chunk), and to advance the counter by the number of chunks; data_received is proved, for every buffer state and every received segment (hence every cut of the stream), to deliver exactly the plaintexts of the complete authentic frames of buffer|data in order, keep exactly the incomplete remainder, advance the counter per accepted frame, and to raise RuntimeError without delivering the failing frame iff a complete frame fails authentication.",
+  note="Ideal AEAD (DESIGN 3.3); _send_lines and the plain HTTP layer enter by assumed contracts (C08/C07). The two spec-level lemmas (unframe over stream concatenation; unframe after frames) are exercised by the labelled bounded native harness (harness/ip_framing.py: real protocol object, real keys, independent reference framing, all single cuts), not yet discharged deductively. 'Ends the session' relies on asyncio closing the transport when data_received raises.",
+  ref="4/C05"),
+ "C06": dict(
+  text="Per key object the counters are proved to be the number of seals / acceptances and every seal / open to use nonce(counter): BLE EncryptionKey/DecryptionKey (__init__, encrypt, decrypt), CoAP EncryptionContext (encrypt, decrypt, decrypt_event), IP SecureHomeKitProtocol (__init__, send_bytes, data_received via the frame specs). A failed open leaves the counter unchanged. CoAP _decrypt_response is under contract and FAILS two clauses (recorded open findings: counter rewind accepts replays; zeroing reuses nonce 0).",
+  note="Ideal AEAD with seal injective in the nonce. Not yet under contract: the BLE/IP 'close the connection on any failed or cancelled request' sites and the BLE key-install site (so cross-call freshness on BLE relies on them). Open findings are listed in KNOWN_FINDINGS.json and matched by failing exit, so other violations of the same clauses are still reported.",
+  ref="4/C06"),
  "C15": dict(
   text="TLV.encode_list is proved equal to the canonical TLV8 spec function for every item list (loop invariants, all lengths) and to raise ValueError only for an invalid type/non-empty separator; TLV.decode_bytearray/decode_bytes are proved total (only TlvParseException escapes, exactly on malformed input), equal to the recursive decoding spec incl. merge and 'expected' filter, and to leave the argument unchanged.",
   note="Trusted: pyvc's encoding of Python semantics (DESIGN 2.3), cvc5/z3, models of bytearray/list/struct builtins (DESIGN 3.1). The round-trip lemma dec(enc(L)) = L over the two spec functions and BLE fragment reassembly are not yet discharged.",
